@@ -15,7 +15,8 @@ package sqlx
 //
 // ops:  new <k> <s>     inserter k := NewBulkInserter(conn_k, stmts[s])   obs: ok pre=… suf=… fmt=…  | err
 //       ins <k> <n>     n rows on inserter k (row values are consecutive numbers, global)   obs: ok | err
-//       flush <k> | upd <k>      BulkInserter.Flush / UpdateOrDelete        obs: ok
+//       flush <k> | upd <k>      BulkInserter.Flush / UpdateOrDelete        obs: ok c=<rows pending in the inserter
+//                                when Flush has returned / when the fn of UpdateOrDelete runs; -1 = fn was not called>
 //       stmt <k> <s>    executor.Wait(); UpdateStmt(stmts[s])               obs: ok pre=… suf=… | err
 //       hand <k>        SetResultHandler(counting handler)                  obs: ok
 //       handp <k>       SetResultHandler(counting handler that PANICS with an error value after counting)
@@ -35,11 +36,14 @@ import (
 	"database/sql"
 	"errors"
 	"fmt"
+	"runtime"
 	"sort"
 	"strconv"
 	"strings"
 	"sync"
+	"sync/atomic"
 	"testing"
+	"time"
 
 	"github.com/zeromicro/go-zero/core/executors"
 	"github.com/zeromicro/go-zero/core/logx"
@@ -170,6 +174,80 @@ func (h *c11sHook) RemoveAll() any {
 		}
 	}
 	return v
+}
+
+// ---- watchdog of the sequential harness: an operation of the public API that does not come back.
+// No operation of this harness blocks on the unchanged tree. If one has not returned after a grace period and every
+// goroutine of the package is parked in several consecutive goroutine dumps (nothing running, nothing runnable: a
+// starved machine shows runnable goroutines and is waited for), the executor is wedged: the observation is `stuck`,
+// and every later operation of the run returns `stuck` at once (the hung goroutine is left behind).
+
+var c11sWedged atomic.Bool
+
+func c11sAllParked() bool {
+	buf := make([]byte, 1<<18)
+	n := runtime.Stack(buf, true)
+	for _, blk := range strings.Split(string(buf[:n]), "\n\n") {
+		if !strings.HasPrefix(blk, "goroutine ") || !strings.Contains(blk, "go-zero/core/") {
+			continue
+		}
+		nl := strings.IndexByte(blk, '\n')
+		if nl < 0 {
+			continue
+		}
+		hdr := blk[:nl]
+		if strings.Contains(blk, "c11sAllParked") {
+			continue // the watchdog itself
+		}
+		if strings.Contains(hdr, "[running") || strings.Contains(hdr, "[runnable") || strings.Contains(hdr, "[syscall") {
+			return false
+		}
+	}
+	return true
+}
+
+func c11sGuard(inner func(op []string) string) func(op []string) string {
+	return func(op []string) string {
+		if c11sWedged.Load() {
+			return "stuck"
+		}
+		ch := make(chan string, 1)
+		go func() {
+			defer func() {
+				if p := recover(); p != nil {
+					ch <- "PANIC " + strings.ReplaceAll(fmt.Sprint(p), "\n", " ")
+				}
+			}()
+			ch <- inner(op)
+		}()
+		grace := time.After(1500 * time.Millisecond)
+		hard := time.After(60 * time.Second)
+		select {
+		case o := <-ch:
+			return o
+		case <-grace:
+		}
+		parked := 0
+		for {
+			select {
+			case o := <-ch:
+				return o
+			case <-hard:
+				c11sWedged.Store(true)
+				return "stuck"
+			case <-time.After(20 * time.Millisecond):
+				if c11sAllParked() {
+					parked++
+				} else {
+					parked = 0
+				}
+				if parked >= 8 {
+					c11sWedged.Store(true)
+					return "stuck"
+				}
+			}
+		}
+	}
 }
 
 func c11sGen(r *verifh.Rng) []verifh.Section {
@@ -418,10 +496,16 @@ func TestVerifC11Sqlx(t *testing.T) {
 			switch op[0] {
 			case "flush":
 				in.bi.Flush()
-				return "ok"
+				c := 0
+				in.bi.executor.Sync(func() { c = len(in.bi.inserter.values) })
+				return fmt.Sprintf("ok c=%d", c)
 			case "upd":
-				in.bi.UpdateOrDelete(func() {})
-				return "ok"
+				// what fn sees: the rows still pending in the inserter when the update / delete runs
+				at := -1
+				in.bi.UpdateOrDelete(func() {
+					in.bi.executor.Sync(func() { at = len(in.bi.inserter.values) })
+				})
+				return fmt.Sprintf("ok c=%d", at)
 			case "hand", "handp":
 				// batches already handed to the flusher read dbInserter.resultHandler when Exec returns: let them finish
 				in.bi.executor.Wait()
@@ -491,15 +575,18 @@ func TestVerifC11Sqlx(t *testing.T) {
 			}
 			return "bad-op"
 		}
-		return step, func() {
-			for _, in := range insts {
-				if in != nil && in.bi != nil {
-					if in.gate != nil {
-						close(in.gate)
+		return c11sGuard(step), func() {
+			c11sGuard(func([]string) string {
+				for _, in := range insts {
+					if in != nil && in.bi != nil {
+						if in.gate != nil {
+							close(in.gate)
+						}
+						in.bi.executor.Wait()
 					}
-					in.bi.executor.Wait()
 				}
-			}
+				return ""
+			})(nil)
 		}
 	})
 }
